@@ -10,6 +10,11 @@ pub mod c01;
 pub mod c02;
 pub mod c03;
 pub mod c04;
+pub mod c05;
+pub mod c06;
+pub mod c07;
+pub mod c09;
+pub mod session;
 pub mod c10;
 pub mod c11;
 pub mod c12;
@@ -23,6 +28,10 @@ pub const ALL: &[Prop] = &[
     Prop { id: "C02", run: c02::run, parts: c02::parts },
     Prop { id: "C03", run: c03::run, parts: c03::parts },
     Prop { id: "C04", run: c04::run, parts: c04::parts },
+    Prop { id: "C05", run: c05::run, parts: c05::parts },
+    Prop { id: "C06", run: c06::run, parts: c06::parts },
+    Prop { id: "C07", run: c07::run, parts: c07::parts },
+    Prop { id: "C09", run: c09::run, parts: c09::parts },
     Prop { id: "C10", run: c10::run, parts: c10::parts },
     Prop { id: "C11", run: c11::run, parts: c11::parts },
     Prop { id: "C12", run: c12::run, parts: c12::parts },
